@@ -894,7 +894,32 @@ class Explore:
                 if tl == l:
                     return v
         t = self.terms.operand(op)
-        return self.assume.get(t)
+        return self._eval_term(t)
+
+    _OPT_TESTS = {"std::option::Option::<T>::is_none": 0, "std::option::Option::<T>::is_some": 1,
+                  "std::result::Result::<T, E>::is_ok": 0, "std::result::Result::<T, E>::is_err": 1}
+
+    def _eval_term(self, t, depth=0):
+        """value of a term under the assumptions: the term itself, x.is_none()/is_some()/is_ok()/is_err() of an
+        assumed discriminant, !b, and ==/!= of two determined values"""
+        if t in self.assume:
+            return self.assume[t]
+        if depth > 6 or not t:
+            return None
+        if t[0] == "call" and t[1] in self._OPT_TESTS and len(t[2]) == 1:
+            k = noref(t[2][0])
+            v = self.assume.get(k)
+            if v is None:
+                v = self.assume.get(noref(strip(k)))
+            if v is None:
+                return None
+            return int(v == self._OPT_TESTS[t[1]])
+        if t[0] == "un" and t[1] == "Not":
+            v = self._eval_term(t[2], depth + 1)
+            return None if v is None or v not in (0, 1) else 1 - v
+        if t[0] in ("copy", "move") and len(t) == 2:
+            return self._eval_term(t[1], depth + 1)
+        return None
 
     def _agg_vidx(self, op, depth=0):
         """variant index of a fieldless enum value moved through temporaries"""
@@ -962,7 +987,7 @@ class Explore:
         if r["k"] == "use" and r["op"]["k"] == "const" and "int" in r["op"]:
             return r["op"]["int"]
         key = self.terms.rvalue(r)
-        return self.assume.get(key)
+        return self._eval_term(key)
 
     def _run(self, start, init_state):
         fn = self.fn
